@@ -35,7 +35,7 @@ CASES = {'quick': 150, 'thorough': 5000}
 
 
 def strategy(tier):
-    w = {'mixed': 3, 'growshrink': 4, 'deep': 2, 'links': 4, 'boot': 3, 'hybrid': 2, 'exactfill': 2, 'cegap': 2, 'samename': 1, 'ptedge': 2, 'bootlinks': 3, 'reloctwins': 1, 'readd': 1, 'twoboots': 1}
+    w = {'mixed': 3, 'growshrink': 4, 'deep': 2, 'links': 4, 'boot': 3, 'hybrid': 2, 'exactfill': 2, 'cegap': 2, 'samename': 1, 'ptedge': 2, 'bootlinks': 3, 'reloctwins': 1, 'readd': 1, 'twoboots': 1, 'udflinks': 2}
     return st.tuples(gen.any_profile(reopen_ok=True, weights=w), st.booleans())
 
 
